@@ -347,3 +347,11 @@ def run(check, tier):
         cands.extend(acc.candidates)
     check.confirm(cands, make_replay, classify)
     driver.close_pool()
+    if tier == "thorough":
+        from . import xh_run
+        res = xh_run.run(["loop_attributes", "loop_cycle", "lru_bound", "densify"])
+        print("  [C03] second engine (CrossHair 0.0.110) on the integer kernels:", res, flush=True)
+        check.cross_engine = res
+        for fn, verdict in res.items():
+            if str(verdict).startswith("COUNTEREXAMPLE"):
+                check.harness_error("CrossHair reports a counterexample for %s where symx found none: %s" % (fn, verdict))
